@@ -33,6 +33,11 @@ func storageTrapAll(inflowMass, storageInflow, storageOutflow, storageVolume dat
 	initialStoredMass float64,
 	trappedMass, outflowMass data.ND1Float64) (storedMass float64) {
 
+	if inflowMass.Len1() == 0 {
+		// an empty period: nothing arrives and there is no timestep to report against; the stored mass stays stored
+		return initialStoredMass
+	}
+
 	trappedMass.CopyFrom(inflowMass)
 
 	idx := []int{0}
